@@ -213,7 +213,8 @@ ADD = Contract(
     params={"self": "obj:ImmutableKnotVector", "nodes": "seq"},
     setup=setup_self,
     spec={"same_seq": same_seq},
-    ensures=["all(U[p] <= nodes[k] and nodes[k] <= U[n] for k in range(len(nodes)))",
+    ensures=["all(U[p] <= nodes[k] and nodes[k] <= U[n] for k in range(len(nodes)))", "len(result.U) == len(U) + len(nodes)",
+             "all(result.U[i] <= result.U[i + 1] for i in range(len(result.U) - 1))",
              "same_seq(result.U, SORTED_RESULT)", "len(SORTED_ARG) == len(U) + len(nodes)",
              "all(SORTED_ARG[i] == U[i] for i in range(len(U)))", "all(SORTED_ARG[len(U) + k] == nodes[k] for k in range(len(nodes)))"],
     raises={"ValueError": None},
